@@ -891,6 +891,9 @@ def parse_function_tensor(ty: TupleType) -> list[FunctionType] | None:
                 result.extend(funcs)
             else:
                 return None
+        else:
+            # Any other element means that this is not a function tensor
+            return None
     return result
 
 
